@@ -40,10 +40,16 @@ def depth3():
     return out
 
 
+# a few depth-3 terms that the quick tier takes as well: containers of containers whose members may be equal but of different types ((True,) == (1,))
+EXTRA2 = ["list[tuple[bool]]", "list[tuple[int]]", "tuple[tuple[bool], ...]", "list[dict[str, bool]]", "tuple[tuple[float], tuple[int], tuple[bool]]", "Sequence[tuple[bool, ...]]"]
+
+
 def terms(maxdepth):
     t = list(BASE)
     if maxdepth >= 2:
         t += depth2()
     if maxdepth >= 3:
         t += depth3()
+    seen = set(t)
+    t += [x for x in EXTRA2 if x not in seen]
     return t
